@@ -77,6 +77,8 @@ void yk_verif_thread(int what, int role);
     } while (false)
 /// evaluates to true if the harness wants the real sleep to be skipped.
 #define YK_YIELD() (yk_verif_on != 0 && yk_verif_yield(__FILE__, __LINE__) != 0)
+/// true while a harness schedules the threads itself: real back-off sleeps are pointless then.
+#define YK_NOSLEEP() (yk_verif_on != 0)
 #define YK_EVENT(ev, obj, a, b)                                                \
     do {                                                                       \
         if (yk_verif_on != 0) {                                                \
@@ -96,6 +98,7 @@ void yk_verif_thread(int what, int role);
 #define YK_VPA(kind, cls, addr, size) ((void) 0)
 #define YK_WAIT(type, ptr) ((void) 0)
 #define YK_YIELD() (false)
+#define YK_NOSLEEP() (false)
 #define YK_EVENT(ev, obj, a, b) ((void) 0)
 #define YK_THREAD(what, role) ((void) 0)
 
